@@ -560,7 +560,9 @@ func child() {
 		} else if strings.HasPrefix(p[0], "P") {
 			out = decodePipelined(m, ver, p[2])
 		} else {
-			out = decodeReal(m, ver, frame)
+			// malformed frames: through the reader kind Conn / Transport use (the model's `discardAll` is bufio's Discard; with a
+			// reader that has no Discard method a frame cut after its last field is accepted — docs/notes/C20.md, observation)
+			out = decodeVia(m, ver, bufio.NewReader(bytes.NewReader(frame)))
 		}
 		runtime.ReadMemStats(&after)
 		if out != "err" && out != "panic" && !strings.Contains(out, ",") {
